@@ -482,6 +482,8 @@ def campaign(prop_id, tier, seed):
     wd = workdir()
     procs = []
     budget = cfg.get("budget_s")
+    if pre and pre.get("failures"):
+        nshards = 0          # the exhaustive pre-campaign already found a violation: report it without spending the random campaign
     for sh in range(nshards):
         outp = os.path.join(wd, "shard%d.json" % sh)
         p = mp.Process(target=_shard_main, args=(prop_id, tier, seed, sh, nshards, cfg["examples"], outp, budget))
